@@ -74,8 +74,7 @@ Lemma W_neg a : W a -> W (- a). Proof. kinds. Qed.
 Lemma NR_neg a : NR a -> NR (- a). Proof. kinds. Qed.
 Lemma W_abs a : W a -> W (nabs a). Proof. kinds. Qed.
 Lemma NR_abs a : NR a -> NR (nabs a). Proof. kinds. Qed.
-Lemma W_pow2 a : W a -> W (npow a 2). Proof. kinds. Qed.
-Lemma NR_pow2 a : NR a -> NR (npow a 2). Proof. kinds. Qed.
+(* no lemma for npow: a float power raises OverflowError on overflow (lib/PreludeX.pow_guard) *)
 Lemma NR_exp_sat a : NR a -> PL (nexp_sat a).
 Proof.
   destruct a as [i v|i v|e]; simpl; try tauto; intros _; destruct v; simpl; try exact I;
@@ -132,7 +131,6 @@ Ltac derive e :=
             | lazymatch b with nlit 1 => pose proof (NR_div_one a ltac:(nr)) end | idtac ]
   | xneg ?a => derive a; first [ pose proof (W_neg a ltac:(ww)) | pose proof (NR_neg a ltac:(nr)) | idtac ]
   | nabs ?a => derive a; first [ pose proof (W_abs a ltac:(ww)) | pose proof (NR_abs a ltac:(nr)) | idtac ]
-  | npow ?a 2 => derive a; first [ pose proof (W_pow2 a ltac:(ww)) | pose proof (NR_pow2 a ltac:(nr)) | idtac ]
   | nsqrt (nmax ?a (nlit 0)) => derive a; first [ pose proof (NR_sqrt_clamped a ltac:(nr)) | idtac ]
   | nexp_sat ?a => derive a; first [ pose proof (NR_exp_sat a ltac:(nr)) | idtac ]
   | nmax ?a ?b => derive a; derive b; first [ pose proof (NR_max a b ltac:(nr) ltac:(nr)) | idtac ]
